@@ -106,6 +106,8 @@ FLOAT_PROGS = {
     'inc>mean>scan': lambda: [rs.ops.map(lambda i: i + 1), rs.math.mean(), rs.ops.scan(lambda a, i: a + i, seed=0.0)],
     'tee(sum,var_r)': lambda: [rs.ops.tee_map(rs.math.sum(), rs.math.variance(reduce=True), join='combine_latest')],
     'var_k>last': lambda: [rs.math.variance(key_mapper=lambda i: i * 3), rs.ops.last()],
+    'min>sum': lambda: [rs.math.min(), rs.math.sum()],           # min / max branch on the data: the term executor forks
+    'max_r': lambda: [rs.math.max(reduce=True)],
 }
 
 
@@ -147,8 +149,14 @@ class Floats(object):
             if any(keys[i] > max(keys[:i] + (-1,)) + 1 for i in range(n)):
                 continue          # group names are canonical up to renaming (restricted growth string)
             shapes += 1
-            res, err = self._run(prog, list(zip(keys, xs)), xs)
-            for k, got, exp in res:
+            paths, complete = z3x.explore(lambda: self._run(prog, list(zip(keys, xs)), xs), q)
+            if not complete:
+                unknown.append('too many data-dependent paths for %s %s' % (prog, keys))
+            triples = []
+            for pc, (res, err) in paths:
+                for k, got, exp in res:
+                    triples.append((pc, err, k, got, exp))
+            for pc, err, k, got, exp in triples:
                 if err or len(got) != len(exp):
                     bad.append(dict(prog=prog, keys=keys, problem='different number of outputs', observed=len(got), expected=len(exp), err=err, replay=dict(prog=prog, keys=list(keys))))
                     continue
@@ -157,7 +165,7 @@ class Floats(object):
                     for (u, v) in pairs:
                         if u is None and v is None:
                             continue
-                        r, m = z3x.terms_equal(u, v, q, '%s keys=%s group=%s out#%d' % (prog, keys, k, j))
+                        r, m = z3x.equal_under(pc, u, v, q, '%s keys=%s group=%s out#%d' % (prog, keys, k, j))
                         if r in ('same', 'unsat'):
                             continue
                         if r == 'sat':
